@@ -3,7 +3,7 @@ package kernel
 import "unsafe"
 
 // Simulated mutexes.  In files compiled through the autoyield overlay with
-// -simsync, sync.Mutex and sync.RWMutex are replaced by types whose methods
+// -simsync, sync.Mutex, sync.RWMutex and sync.Once are replaced by types whose methods
 // call SimSync first.  During a run the lock is then a piece of scheduler
 // state: Lock parks the task until the lock is free (a predicate, so nothing
 // ever blocks in a way the bubble cannot see), TryLock reads the state, and a
@@ -22,11 +22,17 @@ const (
 	OpRLock
 	OpRUnlock
 	OpTryRLock
+	OpOnceEnter // ok: the caller has to run the function (and report OpOnceExit)
+	OpOnceExit
 )
 
 type simMu struct {
 	w bool // write-locked
 	r int  // read locks held
+
+	// A simulated sync.Once: running while the function is being executed,
+	// done afterwards.
+	running, done bool
 }
 
 func (k *Kernel) simMutex(a uintptr) *simMu {
@@ -129,6 +135,35 @@ func SimSync(op int, m unsafe.Pointer) (handled, ok bool) {
 		}}}).(bool)
 
 		return h, true
+	case OpOnceEnter:
+		run := k.park(&note{o: Opts{
+			Site: "once.Do",
+			Pred: func() bool { s := k.simMu[a]; return s == nil || !s.running },
+			Act: func() any {
+				s := k.simMutex(a)
+				if s.done {
+					return false
+				}
+				s.running = true
+
+				return true
+			},
+		}}).(bool)
+		if !run {
+			raceAcquire(m)
+		}
+
+		return true, run
+	case OpOnceExit:
+		raceRelease(m)
+		k.park(&note{o: Opts{Site: "once.done", Act: func() any {
+			s := k.simMutex(a)
+			s.running, s.done = false, true
+
+			return nil
+		}}})
+
+		return true, true
 	}
 
 	return false, false
